@@ -76,11 +76,15 @@ Lemma well_typed_iff s : well_typed_b s = true <-> well_typed s.
 Proof.
   unfold well_typed_b, well_typed, nonneg_cfg. rewrite !andb_true_iff, !Z.leb_le.
   rewrite (forallb_Forall _ nonneg_endpoint) by apply nonneg_endpoint_iff.
+  assert (Hh : forall b, nonempty (b_host b) || nonempty (s_host s) = true <-> has_host s b).
+  { intros b. unfold has_host. rewrite orb_true_iff, !nonempty_iff. tauto. }
   rewrite (forallb_Forall _ (fun e => merge_section_typed (e_extra e) /\ Forall (has_host s) (e_backends e))).
-  - tauto.
-  - intros e. rewrite andb_true_iff, merge_section_typed_iff.
-    rewrite (forallb_Forall _ (has_host s)); [tauto|].
-    intros b. unfold has_host. rewrite orb_true_iff, !nonempty_iff. tauto.
+  2:{ intros e. rewrite andb_true_iff, merge_section_typed_iff.
+      rewrite (forallb_Forall _ (has_host s)) by exact Hh. tauto. }
+  rewrite (forallb_Forall _ (agent_typed s)).
+  2:{ intros a. unfold agent_typed. rewrite !andb_true_iff, Z.leb_le, merge_section_typed_iff.
+      rewrite (forallb_Forall _ (has_host s)) by exact Hh. tauto. }
+  tauto.
 Qed.
 
 (* ------------------------------------------------------------------------------------ *)
@@ -109,6 +113,8 @@ Section RejectIff.
     rewrite bad_host_in_iff.
     rewrite (existsb_ex _ (fun e => exists b, In b (e_backends e) /\ b_nosan b = false /\ bad_host_in ch (b_host b))).
     2:{ intros e. apply existsb_ex. intros b. rewrite andb_true_iff, negb_true_iff, bad_host_in_iff. tauto. }
+    rewrite (existsb_ex _ (fun a => exists b, In b (a_backends a) /\ b_nosan b = false /\ bad_host_in ch (b_host b))).
+    2:{ intros a. apply existsb_ex. intros b. rewrite andb_true_iff, negb_true_iff, bad_host_in_iff. tauto. }
     rewrite (existsb_ex _ (fun e => no_backends e \/ bad_path e \/ noop_multi s e \/
                                     exists b, In b (e_backends e) /\ undeclared_param s e b)).
     2:{ intros e. rewrite !orb_true_iff, negb_true_iff, andb_true_iff.
@@ -117,10 +123,14 @@ Section RejectIff.
         assert (Hn : nonempty (e_backends e) = false <-> e_backends e = []) by (destruct (e_backends e); simpl; split; congruence).
         rewrite Hn. tauto. }
     unfold bad_version, invalid_host. split.
-    - intros [[[H|H]|[e [He [b Hb]]]]|H]; [left; exact H|right; left; left; exact H| |right; right; exact H].
-      right; left; right. exists e, b. tauto.
-    - intros [H|[[H|[e [b [He Hb]]]]|H]]; [left; left; left; exact H|left; left; right; exact H| |right; exact H].
-      left; right. exists e. split; [tauto|]. exists b. tauto.
+    - intros [[[[H|H]|[e [He [b Hb]]]]|[a [Ha [b Hb]]]]|H];
+        [left; exact H|right; left; left; exact H| | |right; right; exact H].
+      + right; left; right; left. exists e, b. tauto.
+      + right; left; right; right. exists a, b. tauto.
+    - intros [H|[[H|[[e [b [He Hb]]]|[a [b [Ha Hb]]]]]|H]];
+        [left; left; left; left; exact H|left; left; left; right; exact H| | |right; exact H].
+      + left; left; right. exists e. split; [tauto|]. exists b. tauto.
+      + left; right. exists a. split; [tauto|]. exists b. tauto.
   Qed.
 End RejectIff.
 
@@ -180,20 +190,37 @@ Section OracleIff.
     tauto.
   Qed.
 
+  Lemma post_agent_backend_iff b o : post_agent_backend_b tbl b o = true <-> abobs_ok (tbl_fun tbl) b o.
+  Proof.
+    unfold post_agent_backend_b, abobs_ok. rewrite !andb_true_iff, negb_str_empty, Z.ltb_lt, is_dnil_iff,
+      nonempty_iff, orb_true_iff.
+    rewrite (forallb_Forall (sanitised_b tbl) (sanitised (tbl_fun tbl))) by apply sanitised_iff.
+    destruct (b_nosan b); intuition congruence.
+  Qed.
+
+  Lemma post_agent_iff a o : post_agent_b tbl a o = true <-> aobs_ok (tbl_fun tbl) a o.
+  Proof.
+    unfold post_agent_b, aobs_ok. rewrite !andb_true_iff, Z.ltb_lt, !Z.leb_le, is_kpanic_iff.
+    rewrite (forallb2_Forall2 _ (abobs_ok (tbl_fun tbl))) by (intros; apply post_agent_backend_iff).
+    tauto.
+  Qed.
+
   (* the oracle decides the property of an observation *)
   Lemma spec_b_iff s o : spec_b tbl s o = true <-> Spec tbl s o.
   Proof.
     unfold spec_b, Spec. destruct (well_typed_b s) eqn:Ew.
-    - apply well_typed_iff in Ew. destruct o as [| |es].
+    - apply well_typed_iff in Ew. destruct o as [| |es ags].
       + split; [discriminate|]. intros H. destruct (H Ew) as [H1 _]. congruence.
-      + split; [|reflexivity]. intros _ _. repeat split; [discriminate|]. intros es H. discriminate.
-      + rewrite andb_true_iff, negb_true_iff.
+      + split; [|reflexivity]. intros _ _. repeat split; [discriminate| |]; intros; discriminate.
+      + rewrite !andb_true_iff, negb_true_iff.
         rewrite (forallb2_Forall2 _ (eobs_ok (tbl_fun tbl) s)) by (intros; apply post_endpoint_iff).
+        rewrite (forallb2_Forall2 _ (aobs_ok (tbl_fun tbl))) by (intros; apply post_agent_iff).
         split.
-        * intros [H1 H2] _. repeat split; [discriminate| |].
+        * intros [[H1 H2] H3] _. split; [discriminate|]. split.
           -- intros Hr. apply must_reject_iff in Hr. congruence.
-          -- intros es' He. inversion He; subst. exact H2.
-        * intros H. destruct (H Ew) as [_ [H2 H3]]. split; [|apply H3; reflexivity].
+          -- intros es' ags' He. inversion He; subst. split; assumption.
+        * intros H. destruct (H Ew) as [_ [H2 H3]]. destruct (H3 es ags eq_refl) as [H4 H5].
+          split; [split|]; [|exact H4|exact H5].
           destruct (must_reject_b (tbl_fun tbl) s) eqn:Er; [|reflexivity].
           apply must_reject_iff in Er. specialize (H2 Er). discriminate.
     - split; [|reflexivity]. intros _ Hw. apply well_typed_iff in Hw. congruence.
@@ -203,10 +230,18 @@ Section OracleIff.
   Lemma model_spec rd tl s : Spec tbl s (obs_of rd (init (tbl_fun tbl) tl s)).
   Proof.
     intros Hw. destruct (total (tbl_fun tbl) tl s Hw) as [Hnp Hf].
+    pose proof (total_agents (tbl_fun tbl) tl s Hw) as Hfa.
     destruct (init (tbl_fun tbl) tl s) as [c|e|site] eqn:E; simpl.
-    - repeat split; [discriminate| |].
+    - split; [discriminate|]. split.
       + intros Hr. exfalso. exact (ok_not_rejected _ _ _ _ E Hr).
-      + intros es He. inversion He; subst es; clear He.
+      + intros es ags He. inversion He; subst es ags; clear He. split.
+        2:{ pose proof (post_agents (tbl_fun tbl) tl s c Hw E) as PA.
+            apply Forall2_map_r. eapply Forall2_imp_In; [|exact PA].
+            intros a0 a' Hin [P1 [P2 [P3 P4]]]. unfold aobs_ok, aobs_of. simpl. repeat split; auto.
+            - apply Forall2_map_r. eapply Forall2_imp; [|exact P4].
+              intros b b' Hb. unfold post_agent_backend in Hb. unfold abobs_ok, bobs_of. simpl. tauto.
+            - destruct (agent_factory_new rd a') as [| |st] eqn:Ef; simpl; try discriminate.
+              exfalso. exact (Hfa c eq_refl rd a' Hin st Ef). }
         pose proof (post (tbl_fun tbl) tl s c Hw E) as P.
         apply Forall2_map_r. eapply Forall2_imp_In; [|exact P].
         intros e0 e' Hin [P1 [P2 [P3 [P4 P5]]]]. unfold eobs_ok, eobs_of. simpl. repeat split; auto.
@@ -214,7 +249,7 @@ Section OracleIff.
           intros b b' Hb. unfold post_backend in Hb. unfold bobs_ok, bobs_of. simpl. tauto.
         * destruct (factory_new rd e') as [| |st] eqn:Ef; simpl; try discriminate.
           exfalso. exact (Hf c eq_refl rd e' Hin st Ef).
-    - repeat split; [discriminate|]. intros es He. discriminate.
+    - repeat split; [discriminate| |]; intros; discriminate.
     - exfalso. exact (Hnp site eq_refl).
   Qed.
 End OracleIff.
